@@ -176,7 +176,7 @@ def macros():
 
 def sigma():
     names = ("NONE K1 STR ELIST EDICT ESET ETUP MARK TUPLE T1 T2 LIST DICT FROZENSET APPEND SETITEM SETITEMS ADDITEMS "
-             "POP DUP MEMOIZE BINGET0 REDUCE OBJ NEWOBJ BUILD BINPERSID PROTO2").split()
+             "POP DUP MEMOIZE BINGET0 REDUCE OBJ NEWOBJ BUILD BINPERSID PROTO2 PROTO4").split()
     return alphabet(names, [G("os", "system"), G("__builtin__", "eval"), G("vp_sink", "hit"), SG("collections", "OrderedDict"),
                             INST("m", "C")])
 
